@@ -47,6 +47,8 @@ pub enum TOp {
     DropOwner,
     Upgrade,
     Spin(u8),
+    /// create this thread's subscriber now (cases with `late_subs`), then read its value
+    Subscribe,
 }
 
 #[derive(Clone, Debug, Serialize, Deserialize, PartialEq, Eq, Hash)]
@@ -62,6 +64,9 @@ pub struct ThrCase {
     pub main_owner: bool,
     /// Some = directed: index of the paused thread to release at each step
     pub schedule: Option<Vec<u8>>,
+    /// threads start without a subscriber and create it with `TOp::Subscribe`
+    #[serde(default)]
+    pub late_subs: bool,
     /// a recorded history of a free-running execution: replay re-judges it instead of executing
     #[serde(default)]
     pub recorded: Option<Box<RunOut>>,
@@ -86,6 +91,8 @@ pub enum Kind {
     Poll { sub: usize, res: PR, prev_pending_woken: Option<bool> },
     Drop,
     Upgrade { ok: bool },
+    /// subscribe() followed by get() on the new subscriber
+    Subscribe { sub: usize, v: u64 },
 }
 
 #[derive(Clone, Debug, Serialize, Deserialize)]
@@ -217,7 +224,9 @@ struct ThreadCtx {
     owners: Vec<SharedObservable<u64>>,
     upgraded: Vec<SharedObservable<u64>>,
     weak: WeakObservable<u64>,
-    sub: Subscriber<u64>,
+    sub: Option<Subscriber<u64>>,
+    /// the last value this subscriber is known to have seen (for "ends on the final value")
+    last_seen: u64,
     last_pending: Option<Arc<Flag>>,
     last_written: u64,
     main_phase: bool,
@@ -238,16 +247,20 @@ impl ThreadCtx {
         self.owners.first().or(self.upgraded.first())
     }
     fn poll(&mut self, clock: &AtomicU64) -> PR {
+        let Some(sub) = self.sub.as_mut() else { return PR::Pending };
         let flag = Flag::new();
         let w = flag_waker(&flag);
         let mut cx = Context::from_waker(&w);
         let inv = clock.fetch_add(1, Ordering::SeqCst);
-        let r = Pin::new(&mut self.sub).poll_next(&mut cx);
+        let r = Pin::new(sub).poll_next(&mut cx);
         let prev = self.last_pending.take();
         let res = match r {
             Poll::Pending => PR::Pending,
             Poll::Ready(None) => PR::End,
-            Poll::Ready(Some(v)) => PR::Item(v),
+            Poll::Ready(Some(v)) => {
+                self.last_seen = v;
+                PR::Item(v)
+            }
         };
         // sampled after the poll returned: sound, a correct implementation woke it before
         let prev_woken = if res != PR::Pending { prev.as_ref().map(|f| f.woken()) } else { None };
@@ -323,9 +336,11 @@ impl ThreadCtx {
                 self.recs.push(Rec { thread: self.tid, main: self.main_phase, kind: Kind::WriteSec { seen, new: unique, prev, acq, rel }, inv, res });
             }
             TOp::NextNow => {
+                let Some(sub) = self.sub.as_mut() else { return };
                 let inv = t();
-                let v = self.sub.next_now();
+                let v = sub.next_now();
                 let res = t();
+                self.last_seen = v;
                 // next_now makes a later readiness independent of earlier wakers
                 self.last_pending = None;
                 self.recs.push(Rec { thread: self.tid, main: self.main_phase, kind: Kind::NextNow { sub: self.tid, v }, inv, res });
@@ -343,7 +358,7 @@ impl ThreadCtx {
                         PR::End => break,
                         PR::Item(_) => {}
                         PR::Pending => {
-                            let f = self.last_pending.clone().unwrap();
+                            let Some(f) = self.last_pending.clone() else { break };
                             let dl = Instant::now() + Duration::from_micros(300);
                             while !f.woken() && Instant::now() < dl {
                                 std::hint::spin_loop();
@@ -366,6 +381,19 @@ impl ThreadCtx {
                 let res = t();
                 self.recs.push(Rec { thread: self.tid, main: self.main_phase, kind: Kind::Drop, inv, res });
             }
+            TOp::Subscribe => {
+                if self.sub.is_some() {
+                    return;
+                }
+                let Some(o) = self.owner() else { return };
+                let inv = t();
+                let sub = o.subscribe();
+                let v = sub.get();
+                let res = t();
+                self.sub = Some(sub);
+                self.last_seen = v;
+                self.recs.push(Rec { thread: self.tid, main: self.main_phase, kind: Kind::Subscribe { sub: self.tid, v }, inv, res });
+            }
             TOp::Upgrade => {
                 let inv = t();
                 let r = self.weak.upgrade();
@@ -382,6 +410,9 @@ impl ThreadCtx {
 
 #[derive(Clone, Debug, Serialize, Deserialize)]
 pub struct RunOut {
+    /// per subscriber (thread): the last value it had seen when the workers were joined (None: no subscriber)
+    #[serde(default)]
+    pub last_seen: Vec<Option<u64>>,
     pub recs: Vec<Rec>,
     pub trace: Vec<String>,
     pub widths: Vec<usize>,
@@ -396,23 +427,9 @@ pub fn execute(case: &ThrCase) -> Result<RunOut, String> {
     let n = case.threads.len();
     let directed = case.schedule.is_some();
     let _guard = if directed { Some(DIRECTED_LOCK.lock().unwrap_or_else(|e| e.into_inner())) } else { None };
-    let init = 7u64;
-    let root = SharedObservable::new(init);
+    let init = INIT;
     let clock = AtomicU64::new(1);
-    let mut ctxs: Vec<ThreadCtx> = (0..n)
-        .map(|tid| ThreadCtx {
-            tid,
-            owners: (0..case.threads[tid].owners.min(2)).map(|_| root.clone()).collect(),
-            upgraded: vec![],
-            weak: root.downgrade(),
-            sub: root.subscribe(),
-            last_pending: None,
-            last_written: init,
-            main_phase: false,
-            recs: vec![],
-        })
-        .collect();
-    let main_owner = if case.main_owner { Some(root) } else { drop(root); None };
+    let (mut ctxs, main_owner) = make_ctxs(case);
     // if nobody holds an owner the observable is already closed; still a valid (trivial) case
     if directed {
         let d = dir();
@@ -468,6 +485,36 @@ pub fn execute(case: &ThrCase) -> Result<RunOut, String> {
         eyeball::verif::set_pause_hook(None);
     }
     let (trace, widths) = out?;
+    Ok(finish(ctxs, main_owner, &clock, init, trace, widths))
+}
+
+const INIT: u64 = 7;
+
+fn make_ctxs(case: &ThrCase) -> (Vec<ThreadCtx>, Option<SharedObservable<u64>>) {
+    let init = INIT;
+    let root = SharedObservable::new(init);
+    let ctxs: Vec<ThreadCtx> = (0..case.threads.len())
+        .map(|tid| ThreadCtx {
+            tid,
+            owners: (0..case.threads[tid].owners.min(2)).map(|_| root.clone()).collect(),
+            upgraded: vec![],
+            weak: root.downgrade(),
+            sub: if case.late_subs { None } else { Some(root.subscribe()) },
+            last_seen: init,
+            last_pending: None,
+            last_written: init,
+            main_phase: false,
+            recs: vec![],
+        })
+        .collect();
+    let main_owner = if case.main_owner { Some(root) } else { drop(root); None };
+    (ctxs, main_owner)
+}
+
+/// After all workers are done: the main thread completes the history (final polls, final value,
+/// dropping what is left) and assembles the record.
+fn finish(mut ctxs: Vec<ThreadCtx>, main_owner: Option<SharedObservable<u64>>, clock: &AtomicU64, init: u64, trace: Vec<String>, widths: Vec<usize>) -> RunOut {
+    let clock = clock;
     // ---- after join: the main thread finishes the history
     let mut owners_alive = main_owner.is_some() as usize;
     for c in &ctxs {
@@ -476,10 +523,15 @@ pub fn execute(case: &ThrCase) -> Result<RunOut, String> {
     for c in ctxs.iter_mut() {
         c.main_phase = true;
     }
+    let last_seen: Vec<Option<u64>> = ctxs.iter().map(|c| c.sub.as_ref().map(|_| c.last_seen)).collect();
     let mut final_polls = vec![];
     let mut first: Vec<(PR, Option<bool>)> = vec![];
     for c in ctxs.iter_mut() {
-        let r = c.poll(&clock);
+        if c.sub.is_none() {
+            first.push((PR::End, None));
+            continue;
+        }
+        let r = c.poll(clock);
         let w = match c.recs.last().map(|r| &r.kind) {
             Some(Kind::Poll { prev_pending_woken, .. }) => *prev_pending_woken,
             _ => None,
@@ -487,7 +539,7 @@ pub fn execute(case: &ThrCase) -> Result<RunOut, String> {
         first.push((r, w));
     }
     // final value as seen by a subscriber's get (works with or without owners)
-    let final_value = ctxs.first().map(|c| c.sub.get()).unwrap_or(init);
+    let final_value = ctxs.iter().find_map(|c| c.sub.as_ref().map(|s| s.get())).or_else(|| main_owner.as_ref().map(|o| o.get())).unwrap_or(u64::MAX);
     // drop every remaining owner: every stream must end now
     drop(main_owner);
     for c in ctxs.iter_mut() {
@@ -495,7 +547,10 @@ pub fn execute(case: &ThrCase) -> Result<RunOut, String> {
         c.upgraded.clear();
     }
     for (i, c) in ctxs.iter_mut().enumerate() {
-        let r2 = c.poll(&clock);
+        if c.sub.is_none() {
+            continue;
+        }
+        let r2 = c.poll(clock);
         let w2 = match c.recs.last().map(|r| &r.kind) {
             Some(Kind::Poll { prev_pending_woken, .. }) => *prev_pending_woken,
             _ => None,
@@ -504,7 +559,89 @@ pub fn execute(case: &ThrCase) -> Result<RunOut, String> {
     }
     let mut recs: Vec<Rec> = ctxs.into_iter().flat_map(|c| c.recs).collect();
     recs.sort_by_key(|r| r.inv);
-    Ok(RunOut { recs, trace, widths, init, final_polls, owners_alive_after_join: owners_alive, final_value })
+    RunOut { last_seen, recs, trace, widths, init, final_polls, owners_alive_after_join: owners_alive, final_value }
+}
+
+/// Free-running only: run the same program `reps` times on one set of worker threads (fresh
+/// observable and handles per repetition), judging every recorded history.
+pub fn run_reps(case: &ThrCase, prop: Prop, reps: u32) -> R<CaseReport> {
+    if case.schedule.is_some() || case.recorded.is_some() || reps <= 1 {
+        return run(case, prop);
+    }
+    let n = case.threads.len();
+    let slots: Vec<Mutex<Option<ThreadCtx>>> = (0..n).map(|_| Mutex::new(None)).collect();
+    let start = Barrier::new(n + 1);
+    let end = Barrier::new(n + 1);
+    let stop = std::sync::atomic::AtomicBool::new(false);
+    let clock = AtomicU64::new(1);
+    let mut result: R<CaseReport> = Ok(CaseReport::default());
+    std::thread::scope(|sc| {
+        for tid in 0..n {
+            let (slots, start, end, stop, clock) = (&slots, &start, &end, &stop, &clock);
+            let prog = &case.threads[tid];
+            sc.spawn(move || loop {
+                start.wait();
+                if stop.load(Ordering::SeqCst) {
+                    break;
+                }
+                let mut ctx = slots[tid].lock().unwrap().take().expect("ctx");
+                for (i, op) in prog.ops.iter().enumerate() {
+                    ctx.exec(i, *op, clock, true);
+                }
+                *slots[tid].lock().unwrap() = Some(ctx);
+                end.wait();
+            });
+        }
+        let mut merged = CaseReport::default();
+        for _ in 0..reps {
+            let (ctxs, main_owner) = make_ctxs(case);
+            for (i, c) in ctxs.into_iter().enumerate() {
+                *slots[i].lock().unwrap() = Some(c);
+            }
+            start.wait();
+            end.wait();
+            let ctxs: Vec<ThreadCtx> = (0..n).map(|i| slots[i].lock().unwrap().take().expect("ctx back")).collect();
+            let out = finish(ctxs, main_owner, &clock, INIT, vec![], vec![]);
+            match judge(case, &out, prop) {
+                Ok(rep) => {
+                    merged.checks += rep.checks;
+                    merged.nontrivial |= rep.nontrivial;
+                    for c in rep.classes {
+                        if !merged.classes.contains(&c) {
+                            merged.classes.push(c);
+                        }
+                    }
+                    merged.executions += 1;
+                }
+                Err(Stop::Violation(m)) => {
+                    result = Err(Stop::Violation(save_history(case, out, prop, m)));
+                    break;
+                }
+                Err(e) => {
+                    result = Err(e);
+                    break;
+                }
+            }
+        }
+        if result.is_ok() {
+            result = Ok(merged);
+        }
+        stop.store(true, Ordering::SeqCst);
+        start.wait();
+    });
+    result
+}
+
+fn save_history(case: &ThrCase, out: RunOut, prop: Prop, m: String) -> String {
+    let mut c = case.clone();
+    c.recorded = Some(Box::new(out));
+    let dir = std::path::PathBuf::from(std::env::var("VERIF_DIR").unwrap_or_else(|_| "/verif".into())).join("replays").join("found");
+    let _ = std::fs::create_dir_all(&dir);
+    let body = serde_json::json!({"property": prop.name(), "engine": "thr", "message": m, "origin": "recorded history of a free-running execution", "case": c});
+    let text = serde_json::to_string(&body).unwrap_or_default();
+    let path = dir.join(format!("{}-thr-history-{:016x}.json", prop.name(), crate::common::fnv(text.as_bytes())));
+    let _ = std::fs::write(&path, text);
+    format!("{m} [recorded history: {}]", path.display())
 }
 
 // ---------------------------------------------------------------------------------------------
@@ -535,6 +672,7 @@ fn spec(kind: &Kind, s: u64) -> Option<u64> {
         Kind::ReadSec { v1, .. } => (*v1 == s).then_some(s),
         Kind::WriteSec { seen, new, prev, .. } => (*seen == s && *prev == s).then_some(*new),
         Kind::NextNow { v, .. } => (*v == s).then_some(s),
+        Kind::Subscribe { v, .. } => (*v == s).then_some(s),
         Kind::Poll { res: PR::Item(v), .. } => (*v == s).then_some(s),
         _ => Some(s),
     }
@@ -617,6 +755,22 @@ pub fn judge(case: &ThrCase, out: &RunOut, prop: Prop) -> R<CaseReport> {
             }
         }
     }
+    // C04: after the writers have finished every subscriber ends on the final value: if its
+    // first poll after the join is Pending, the last value it saw must be the final one
+    if out.final_value != u64::MAX {
+        for (i, r1, _w1, _r2, _w2) in &out.final_polls {
+            rep.checks += 1;
+            if let (PR::Pending, Some(Some(seen))) = (r1, out.last_seen.get(*i)) {
+                if *seen != out.final_value {
+                    return fail(
+                        prop,
+                        &[C04, C01],
+                        format!("subscriber {i} is Pending after all writers finished, but the last value it saw is {seen} and the final value is {} (an update was lost for it; {})", out.final_value, sched()),
+                    );
+                }
+            }
+        }
+    }
     // C04: guard sections
     for r in &out.recs {
         match &r.kind {
@@ -650,7 +804,8 @@ pub fn judge(case: &ThrCase, out: &RunOut, prop: Prop) -> R<CaseReport> {
     // C04: linearizability against the sequential register, ending on the final value
     let reg: Vec<&Rec> = out.recs.iter().filter(|r| is_reg_op(&r.kind)).collect();
     rep.checks += 1;
-    if !linearizable(&reg, out.init, Some(out.final_value)) {
+    let fin = if out.final_value == u64::MAX { None } else { Some(out.final_value) };
+    if !linearizable(&reg, out.init, fin) {
         let hist: Vec<String> = reg.iter().map(|r| format!("T{}[{}..{}] {:?}", r.thread, r.inv, r.res, r.kind)).collect();
         return fail(
             prop,
@@ -694,18 +849,7 @@ pub fn run(case: &ThrCase, prop: Prop) -> R<CaseReport> {
     }
     match execute(case) {
         Ok(out) => match judge(case, &out, prop) {
-            Err(Stop::Violation(m)) if case.schedule.is_none() => {
-                // free-running executions are not reproducible from the case: save the history
-                let mut c = case.clone();
-                c.recorded = Some(Box::new(out));
-                let dir = std::path::PathBuf::from(std::env::var("VERIF_DIR").unwrap_or_else(|_| "/verif".into())).join("replays").join("found");
-                let _ = std::fs::create_dir_all(&dir);
-                let body = serde_json::json!({"property": prop.name(), "engine": "thr", "message": m, "origin": "recorded history of a free-running execution", "case": c});
-                let text = serde_json::to_string(&body).unwrap_or_default();
-                let path = dir.join(format!("{}-thr-history-{:016x}.json", prop.name(), crate::common::fnv(text.as_bytes())));
-                let _ = std::fs::write(&path, text);
-                Err(Stop::Violation(format!("{m} [recorded history: {}]", path.display())))
-            }
+            Err(Stop::Violation(m)) if case.schedule.is_none() => Err(Stop::Violation(save_history(case, out, prop, m))),
             r => r,
         },
         Err(e) => Err(Stop::Internal(e)),
@@ -813,6 +957,7 @@ pub fn op(directed: bool) -> BoxedStrategy<TOp> {
             1 => Just(TOp::DropOwner),
             1 => Just(TOp::Upgrade),
             2 => n().prop_map(TOp::Spin),
+            2 => Just(TOp::Subscribe),
         ]
         .boxed()
     }
@@ -820,7 +965,13 @@ pub fn op(directed: bool) -> BoxedStrategy<TOp> {
 
 pub fn case(directed: bool, max_threads: usize, max_ops: usize) -> BoxedStrategy<ThrCase> {
     let prog = (0u8..=2, proptest::collection::vec(op(directed), 1..=max_ops)).prop_map(|(owners, ops)| ThrProg { owners, ops });
-    (proptest::collection::vec(prog, 2..=max_threads), any::<bool>(), proptest::collection::vec(0u8..4, 0..12))
-        .prop_map(move |(threads, main_owner, sched)| ThrCase { threads, main_owner, schedule: if directed { Some(sched) } else { None }, recorded: None })
+    (proptest::collection::vec(prog, 2..=max_threads), any::<bool>(), proptest::collection::vec(0u8..4, 0..12), 0u8..4)
+        .prop_map(move |(threads, main_owner, sched, late)| ThrCase {
+            threads,
+            main_owner,
+            schedule: if directed { Some(sched) } else { None },
+            late_subs: !directed && late == 0,
+            recorded: None,
+        })
         .boxed()
 }
